@@ -5,7 +5,8 @@ from concurrent.futures import ThreadPoolExecutor
 import core
 
 OPS = ["contains_point", "is_valid", "made_valid", "union", "intersection", "contains_box", "collides", "expanded", "split",
-       "center_size", "projected", "collision_vector", "map", "rect_to_box", "box_to_rect", "new_empty", "box_drop_z"]
+       "center_size", "projected", "collision_vector", "map", "rect_to_box", "box_to_rect", "new_empty", "box_drop_z",
+       "expanded_any", "rect_vs_box"]
 
 
 def key(rec):
@@ -30,7 +31,9 @@ def run(ctx):
                 "intersection = exactly the common points (invalid iff none), containment = subset, collision = interiors "
                 "share a point, expansion, splits covering the box and sharing the slice, centre/size/half size, nearest "
                 "point over all grid points, validity repair, map/as_, box<->rectangle conversions, every rectangle "
-                "method as the box method on the converted value, collision vector making the boxes touch per axis; "
+                "method as the box method on the converted value (also on rectangles with negative positions and odd or negative "
+                "extents, where integer division matters), expansion of inside-out receivers (result contains the point, in-place "
+                "= returning form), collision vector making the boxes touch per axis; "
                 "thorough: ALL 65536 ordered pairs of 2D boxes; quick: a seeded sample of pairs (half of positive extent); "
                 "non-trivial = binary record whose operands are neither equal nor disjoint on every axis")
     thorough = ctx.tier == "thorough"
